@@ -92,8 +92,12 @@ fn run(which: u8, doc: &[u8]) {
     match which % N_PARSERS {
         0 => {
             round_trip("rrdp notification", doc, |d| NotificationFile::parse(d), |v| to_vec(|w| v.write_xml(w)));
-            if let Ok(mut n) = NotificationFile::parse_limited(doc, 3) {
+            if let Ok(n) = NotificationFile::parse_limited(doc, 3) {
+                let _ = (n.delta_status().is_ok(), n.deltas().len());
+            }
+            if let Ok(mut n) = NotificationFile::parse(doc) {
                 let _ = n.delta_status();
+                let _ = n.has_matching_origins(n.snapshot().uri());
                 for limit in [Some(2), Some(0), None, Some(usize::MAX)] {
                     let mut m = n.clone();
                     let _ = m.sort_and_verify_deltas(limit);
